@@ -782,72 +782,92 @@ theorem step_ok (t : T) (op : Op) (h : Aligned t) : StepOK t op := by
   cases op with
   | append r =>
     obtain ⟨hA, hE⟩ := extend_refines t [r] h
-    refine ⟨hA, rfl, fun hg => hg, Or.inl ?_⟩
+    refine ⟨hA, rfl, ?_⟩
     simp only [specStep, step, absS, hE]
   | extend rs =>
     obtain ⟨hA, hE⟩ := extend_refines t rs h
-    refine ⟨hA, rfl, fun hg => hg, Or.inl ?_⟩
+    refine ⟨hA, rfl, ?_⟩
     simp only [specStep, step, absS, hE]
   | setItem i r =>
     simp only [step, specStep]
     cases hs : setItem t i r with
     | ok t' =>
       obtain ⟨hA, hspec, hf, hg, hw⟩ := setItem_ok t t' i r h hs
-      refine ⟨hA, hw, fun hh => by simp only [ofExcept]; rw [hg]; exact hh, Or.inl ?_⟩
+      refine ⟨hA, hw, ?_⟩
       simp only [ofExcept, absS, hspec, ofExceptS, hf]
     | error e =>
       have hspec := setItem_err t i r e h hs
-      refine ⟨h, rfl, fun hh => hh, Or.inl ?_⟩
+      refine ⟨h, rfl, ?_⟩
       simp only [ofExcept, absS, hspec, ofExceptS]
   | setSlice sl vals =>
     simp only [step, specStep]
     cases hs : setSlice t sl vals with
     | ok t' =>
       obtain ⟨hA, hspec, hf, hg, hw⟩ := setSlice_ok t t' sl vals h hs
-      refine ⟨hA, hw, fun hh => by simp only [ofExcept]; rw [hg]; exact hh, Or.inl ?_⟩
+      refine ⟨hA, hw, ?_⟩
       simp only [ofExcept, absS, hspec, ofExceptS, hf]
     | error e =>
       have hspec := setSlice_err t sl vals e h hs
-      refine ⟨h, rfl, fun hh => hh, Or.inl ?_⟩
+      refine ⟨h, rfl, ?_⟩
       simp only [ofExcept, absS, hspec, ofExceptS]
   | update i cols =>
     simp only [step, specStep]
     cases hs : update t i cols with
     | ok t' =>
       obtain ⟨hA, hspec, hf, hg, hw⟩ := update_ok t t' i cols h hs
-      refine ⟨hA, hw, fun hh => by simp only [ofExcept]; rw [hg]; exact hh, Or.inl ?_⟩
+      refine ⟨hA, hw, ?_⟩
       simp only [ofExcept, absS, hspec, ofExceptS, hf]
     | error e =>
       have hspec := update_err t i cols e h hs
-      refine ⟨h, rfl, fun hh => hh, Or.inl ?_⟩
+      refine ⟨h, rfl, ?_⟩
       simp only [ofExcept, absS, hspec, ofExceptS]
   | clear =>
-    refine ⟨⟨h.pers_eq, ?_, ?_, ?_⟩, rfl, fun hg => hg, Or.inl ?_⟩
+    refine ⟨⟨h.pers_eq, ?_, ?_, ?_⟩, rfl, ?_⟩
     · intro i hi; simp [step] at hi
     · intro i hi; simp [step] at hi; omega
     · simp [step]
     · simp [specStep, step, absS, abs, absL, resolve]
   | commit =>
     simp only [step, specStep]
-    cases hc : commit t with
-    | ok t' =>
-      obtain ⟨ht', hgz⟩ := commit_ok t t' h hc
-      refine ⟨by simp only [ofExcept]; rw [ht']; exact aligned_sync _,
-              by simp only [ofExcept]; rw [ht']; rfl, fun hh => hgz hh, Or.inl ?_⟩
-      simp only [ofExcept, absS]
-      rw [ht', abs_sync]
-      rfl
-    | error e =>
-      obtain ⟨he, hgz⟩ := commit_err t e h hc
-      subst he
-      exact ⟨h, rfl, fun hh => hh, Or.inr ⟨trivial, hgz, rfl⟩⟩
+    obtain ⟨t', hc⟩ := commit_total t h
+    rw [hc]
+    obtain ⟨ht', _⟩ := commit_ok t t' h hc
+    refine ⟨by simp only [ofExcept]; rw [ht']; exact aligned_sync _,
+            by simp only [ofExcept]; rw [ht']; rfl, ?_⟩
+    simp only [ofExcept, absS]
+    rw [ht', abs_sync]
+    rfl
   | reload =>
-    refine ⟨aligned_sync t, rfl, fun hg => hg, Or.inl ?_⟩
+    refine ⟨aligned_sync t, rfl, ?_⟩
     simp only [specStep, step, absS, abs_sync]; rfl
   | reopen =>
-    refine ⟨aligned_sync t, rfl, fun hg => hg, Or.inl ?_⟩
+    refine ⟨aligned_sync t, rfl, ?_⟩
     simp only [specStep, step, absS, abs_sync]; rfl
 
+theorem commit_gz (t t' : T) (h : Aligned t) (hc : commit t = .ok t') :
+    (t.gz = false → t'.gz = false)
+    ∧ (t.gz = true → t'.gz = if inTransaction t then !(abs t).isEmpty else true) := by
+  unfold commit at hc
+  split at hc
+  · rename_i htx
+    split at hc
+    · rename_i hv
+      have hn : t.pers ≤ t.rows.length := by have := h.vol_le; omega
+      rw [iterSlice_from t t.pers h hn] at hc
+      injection hc with hc
+      subst hc
+      simp [sync, hv.2]
+    · injection hc with hc
+      subst hc
+      simp only [sync, htx, if_true]
+      constructor
+      · intro hg; simp [hg]
+      · intro hg; simp [hg]
+  · rename_i htx
+    injection hc with hc
+    subst hc
+    simp only [sync, htx]
+    simp
 
 theorem commit_sync (u : T) : commit (sync u) = .ok (sync u) := by
   unfold commit
